@@ -969,20 +969,20 @@ def r46(ctx, repo, henv, n, depths):
     repo.func(HFILT, "HierarchyFilter.update_parent")
     node = repo.func(HFILT, "HierarchyFilter.parent_changed")
     it = henv.interp
-    for depth in depths:
+
+    def fmt(s):
+        return " > ".join("".join("1" if m else "0" for m in x) for x in s)
+
+    def scan(depth):
         sts = states(n, depth)
-        bad = None
         cnt = 0
         for s1 in sts:
-            if bad:
-                break
             ch = build(n, s1)
             child = ch[-1]
             ids1 = child.ids()
             res = L.run(lambda: hf_cls(child))
             if res[0] != "ok":
-                bad = (s1, s1, res, "construction")
-                break
+                return cnt, (s1, s1, res, "construction")
             hf = res[1]
             for s2 in sts:
                 set_state(ch, s2)
@@ -991,23 +991,19 @@ def r46(ctx, repo, henv, n, depths):
                 res = L.run(lambda: bool(L.lookup_attr(
                     it, hf, "parent_changed", None)))
                 if res[0] != "ok":
-                    bad = (s1, s2, res, None)
-                    break
+                    return cnt, (s1, s2, res, None)
                 if ids1 != ids2 and res[1] is not True:
-                    bad = (s1, s2, res, True)
-                    break
+                    return cnt, (s1, s2, res, True)
                 if s1 == s2 and res[1] is not False:
-                    bad = (s1, s2, res, False)
-                    break
+                    return cnt, (s1, s2, res, False)
             set_state(ch, s1)
+        return cnt, None
 
-        def fmt(s):
-            return " > ".join("".join("1" if m else "0" for m in x)
-                              for x in s)
+    def report(label, cnt, bad, what):
         ctx.ob("R4.6", bad is None,
                f"the parent-change witness is true for every change of the "
                f"child's underlying events and false after update_parent "
-               f"({cnt} state pairs, depth {depth})" if bad is None else
+               f"({cnt} state pairs, {what})" if bad is None else
                (f"the parent-change witness misses a change: ancestor "
                 f"filters {fmt(bad[0])} -> {fmt(bad[1])} give the child "
                 f"different underlying events, parent_changed is "
@@ -1016,8 +1012,17 @@ def r46(ctx, repo, henv, n, depths):
                 if bad[3] is True else
                 f"parent_changed is {_res(bad[2])} for ancestor filters "
                 f"{fmt(bad[0])} -> {fmt(bad[1])}, expected {bad[3]}"),
-               node=node,
-               label=f"parent-change witness covers ancestors [depth {depth}]")
+               node=node, label=label)
+    cnt, bad = scan(1)
+    report("parent-change witness [direct parent]", cnt, bad, "depth 1")
+    tot, first = 0, None
+    deep = [d for d in depths if d > 1]
+    for depth in deep:
+        cnt, bad = scan(depth)
+        tot += cnt
+        first = first or bad
+    report("parent-change witness covers ancestors", tot, first,
+           f"depth {', '.join(map(str, deep))}")
 
 
 def r47(ctx, repo, henv, n, depths, n_deep):
